@@ -110,10 +110,10 @@ IntKeysOf(S) == {IntKey(n) : n \in S}
 \* ------------------------------------------------------------ path algebra ---
 \* The reference is the sequence of keys: concatenation, prefix, suffix.
 Concat(p, q) == p \o q
-IsPrefix(q, p) == Len(q) <= Len(p) /\ SubSeq(p, 1, Len(q)) = q
+PrefixOf(q, p) == Len(q) <= Len(p) /\ SubSeq(p, 1, Len(q)) = q
 ParentOf(p) == IF p = <<>> THEN [ok |-> FALSE, keys |-> <<>>] ELSE [ok |-> TRUE, keys |-> SubSeq(p, 1, Len(p) - 1)]
 \* p - q : the path of p relative to q; an error unless q is a prefix of p
-Sub(p, q) == IF IsPrefix(q, p) THEN [ok |-> TRUE, keys |-> SubSeq(p, Len(q) + 1, Len(p))]
+Sub(p, q) == IF PrefixOf(q, p) THEN [ok |-> TRUE, keys |-> SubSeq(p, Len(q) + 1, Len(p))]
              ELSE [ok |-> FALSE, keys |-> <<>>]
 
 \* Ordering.  Lexicographic comparison of code sequences = Python str comparison.
@@ -144,7 +144,7 @@ PathLt(p, q, m) ==
 Irreflexive(U, lt(_, _)) == \A a \in U : ~lt(a, a)
 Transitive(U, lt(_, _)) == \A a, b, c \in U : lt(a, b) /\ lt(b, c) => lt(a, c)
 Trichotomous(U, lt(_, _)) == \A a, b \in U : a # b => (lt(a, b) \/ lt(b, a))
-PrefixFirst(U, lt(_, _)) == \A a, b \in U : (a # b /\ IsPrefix(a, b)) => lt(a, b)
+PrefixFirst(U, lt(_, _)) == \A a, b \in U : (a # b /\ PrefixOf(a, b)) => lt(a, b)
 IntTextKey(k) == k.int \/ AllDigits(LStripDash(k.s))      \* an int key or a str key that reads like one
 
 \* ---------------------------------------------------------- nested values ---
